@@ -29,7 +29,9 @@ func genC13Dead(t *rapid.T) *vnet.Scenario {
 		}
 		c.HandshakeMs = rapid.SampledFrom([]int{0, 200, 2000}).Draw(t, label+"_hs")
 		if must || rapid.Bool().Draw(t, label+"_ka") {
-			pp := rapid.SampledFrom([][2]int{{5000, 3000}, {7000, 3000}, {1000, 500}, {300, 100}, {2000, 1000}, {100, 50}}).Draw(t, label+"_pp")
+			// includes pong timeouts longer than the ping interval
+			pp := rapid.SampledFrom([][2]int{{5000, 3000}, {7000, 3000}, {1000, 500}, {300, 100}, {2000, 1000}, {100, 50},
+				{500, 1000}, {1500, 3000}, {100, 300}, {1000, 1000}}).Draw(t, label+"_pp")
 			c.PingMs, c.PongMs = pp[0], pp[1]
 		}
 		return c
@@ -246,7 +248,7 @@ func genC13Live(t *rapid.T) *liveCase {
 			x.ResendMs = rapid.SampledFrom([]int{500, 1000, 2000}).Draw(t, label+"_resend")
 		}
 		x.HandshakeMs = rapid.SampledFrom([]int{0, 2000}).Draw(t, label+"_hs")
-		pp := rapid.SampledFrom([][2]int{{5000, 3000}, {7000, 3000}, {1000, 500}, {300, 100}, {2000, 1000}, {100, 50}, {1000, 3000}}).Draw(t, label+"_pp")
+		pp := rapid.SampledFrom([][2]int{{5000, 3000}, {7000, 3000}, {1000, 500}, {300, 100}, {2000, 1000}, {100, 50}, {1000, 3000}, {500, 1000}, {100, 300}, {1000, 1000}}).Draw(t, label+"_pp")
 		x.PingMs, x.PongMs = pp[0], pp[1]
 		return x
 	}
